@@ -12,7 +12,7 @@ from common import (ToolError, cfg_text, ensure_built, load_known, log, parse_mc
 CODE_FLAGS = {"IntentsPerHash": "TRUE", "OpenUnderGuard": "TRUE"}
 
 MC_BASE = dict(CODE_FLAGS, NK=2, NT=2, OpsPerThread=1, ProgKeys="{1, 2}", ProgContents='{"A", "B"}', WalN=10000,
-               WithReads="TRUE", WithCleanup="FALSE", WithCkpt="TRUE")
+               WithReads="TRUE", WithCleanup="FALSE", WithCkpt="TRUE", WithGuard="FALSE")
 
 
 def mc_configs(tier):
@@ -39,6 +39,11 @@ def run_mc(tier, invariants, liveness=False):
         tot["violated"] += r["violated"]
         tot["configs"].append(dict(c, distinct=r["distinct"], depth=r["depth"]))
     if liveness:
+        # the user-held read guard class: TLC's deadlock is finding F6 (reported only through its reproduction on the code)
+        c = dict(MC_BASE, ProgKeys="{1}", WithGuard="TRUE")
+        out = tlc("MCConc", cfg_text(c, extra=["VIEW View"]).replace("CHECK_DEADLOCK FALSE", "CHECK_DEADLOCK TRUE"), workers=4, timeout=1200, name="mcg")
+        tot["configs"].append(dict(c, deadlock_reached=("Deadlock reached" in out)))
+        tot["guard_class_deadlock"] = "Deadlock reached" in out
         c = dict(MC_BASE, ProgKeys="{1}", WithCkpt="TRUE")
         out = tlc("MCConc", cfg_text(c, spec="FairSpec", extra=["PROPERTY Live_C15"]).replace("CHECK_DEADLOCK FALSE", "CHECK_DEADLOCK TRUE"),
                   workers=4, timeout=2400, heap="8g", name="mcl")
@@ -104,6 +109,13 @@ def build_scenarios(prop, tier, rnd):
         for cl in ("cleanup", "quarantine", "cleanone"):
             for other in ([{"op": "put", "k": 1, "c": "C"}], [{"op": "put", "k": 2, "c": "C"}, {"op": "del", "k": 2}], [{"op": "del", "k": 1}]):
                 add([{"op": "put", "k": 1, "c": "A"}], [[{"op": cl, "c": "C"}], other], dfs, plant=[{"c": "C"}])
+    # a caller that keeps an IndexReadGuard alive and READS again while another thread writes (finding F6);
+    # the schedule is forced so that the writer really queues inside state.write()
+    if prop == "C15":
+        for w in ([{"op": "put", "k": 1, "c": "B"}], [{"op": "ckpt"}]):
+            pre = 6 if w[0]["op"] == "put" else 2
+            add([{"op": "put", "k": 1, "c": "A"}], [[{"op": "guard"}, {"op": "get", "k": 1}, {"op": "unguard"}], w],
+                {"kind": "forced", "schedules": [[1, 1] + [2] * pre + [1] * 5]})
     return sc
 
 
@@ -240,4 +252,7 @@ def match_known(prop, tag, rs, known):
                 return k
         if kind == "read_lookup_open_race" and tag.startswith("C05:read-failed-BlobDataMissing"):
             return k
+        if kind == "nested_read_under_guard" and tag.startswith("C15:deadlock"):
+            if any(op["op"] == "guard" for t in th for op in t):
+                return k
     return None
